@@ -227,7 +227,13 @@ def run_post_case(impl, case, out):
         ref = ref_dispatch(pkts, 'polling')
         if pre:
             ref = dict(ref, events=pre + list(ref['events']))
-        r = peer.post(w, sid, body)
+        if case.get('chunked') and len(pkts) >= 2:
+            # the gateway hands the body over in pieces, one of them empty (ASGI allows http.request events without data)
+            cut = len(pkts[0].encode('utf-8')) + 1
+            raw = body.encode('utf-8')
+            r = peer.post(w, sid, body, chunks=[raw[:cut], b'', raw[cut:]])
+        else:
+            r = peer.post(w, sid, body)
         w.run_until(T_BODY)           # same instant, to quiescence
         msgs = [e[2] for e in w.events if e[0] == 'message']
         disc = [e for e in w.events if e[0] == 'disconnect']
@@ -425,6 +431,8 @@ def run(ctx):
             for b in bodies:
                 for poll in ((True,) if ctx.quick else (True, False)):
                     jobs.append(('post', impl, {'pkts': b, 'async_handlers': mode, 'poll': poll}))
+                if len(b) == 2 and impl == 'async':
+                    jobs.append(('post', impl, {'pkts': b, 'async_handlers': mode, 'poll': True, 'chunked': True}))
                 if len(b) <= 2:
                     jobs.append(('post', impl, {'pkts': b, 'async_handlers': mode, 'poll': True, 'prelude': True}))
                     jobs.append(('post', impl, {'pkts': b, 'async_handlers': mode, 'poll': True, 'session': 'mid_upgrade'}))
